@@ -92,10 +92,19 @@ func IsStreamingPayload(str string) bool {
 	pt := payloadType(str)
 	return pt == payloadTypeStreamingUnsignedTrailer ||
 		pt == payloadTypeStreamingSigned ||
-		pt == payloadTypeStreamingSignedTrailer
+		pt == payloadTypeStreamingSignedTrailer ||
+		pt == payloadTypeStreamingEcdsa ||
+		pt == payloadTypeStreamingEcdsaTrailer
 }
 
 func NewChunkReader(ctx *fiber.Ctx, r io.Reader, authdata AuthData, region, secret string, date time.Time, debug bool) (io.Reader, error) {
+	// a chunk encoding that is not implemented is refused whatever else
+	// the request says: its body must not be stored as it is
+	switch pt := payloadType(ctx.Get("X-Amz-Content-Sha256")); pt {
+	case payloadTypeStreamingEcdsa, payloadTypeStreamingEcdsaTrailer:
+		return nil, getPayloadTypeNotSupportedErr(pt)
+	}
+
 	decContLength := ctx.Get("X-Amz-Decoded-Content-Length")
 	if decContLength == "" {
 		return nil, s3err.GetAPIError(s3err.ErrMissingDecodedContentLength)
